@@ -582,7 +582,10 @@ impl<S: WebSocket, T: TimestampProvider> Task<S, T> {
                 if let Err(e) = self.datagram_tx.try_send(datagram) {
                     match e {
                         TrySendError::Full(_) => warn!("Dropped datagram: {e}"),
-                        TrySendError::Closed(_) => return Err(Error::Closed),
+                        // The `Multiplexor` has just been dropped and we will process that
+                        // shortly; what is already queued still needs to be flushed, so this
+                        // is not an error of the connection.
+                        TrySendError::Closed(_) => debug!("Dropped datagram: {e}"),
                     }
                 }
             }
@@ -677,10 +680,14 @@ impl<S: WebSocket, T: TimestampProvider> Task<S, T> {
         // user.
         trace!("sending stream to user");
         // This goes to the user
-        self.con_recv_stream_tx
-            .send(stream)
-            .await
-            .or(Err(Error::SendStreamToClient))?;
+        if let Err(mpsc::error::SendError(stream)) = self.con_recv_stream_tx.send(stream).await {
+            // Only happens when the `Multiplexor` has just been dropped and we have not
+            // processed that yet. This is not a reason to abort the connection without
+            // flushing what is already queued: refuse this one stream (dropping it sends
+            // a `Reset`) and let the normal shutdown procedure run.
+            debug!("multiplexor dropped, refusing new stream");
+            drop(stream);
+        }
         Ok(())
     }
 
@@ -692,14 +699,20 @@ impl<S: WebSocket, T: TimestampProvider> Task<S, T> {
         // At the client side, we use the associated oneshot channel to send the new stream
         trace!("sending stream to user");
         let (stream, stream_data) = self.new_stream_shared(flow_id, peer_rwnd, Bytes::new(), 0);
-        self.flows
+        let sender = self
+            .flows
             .write()
             .get_mut(&flow_id)
             .ok_or(Error::ConnAckGone)?
             .establish(stream_data)
-            .ok_or(Error::ConnAckGone)?
-            .send(Some(stream))
-            .or(Err(Error::SendStreamToClient))?;
+            .ok_or(Error::ConnAckGone)?;
+        if let Err(stream) = sender.send(Some(stream)) {
+            // The requester cancelled `new_stream_channel`. Nobody can use this stream,
+            // but that must not take down the other streams on this connection:
+            // dropping it closes the flow and sends a `Reset` to the peer.
+            debug!("requester of the stream is gone, resetting it");
+            drop(stream);
+        }
         Ok(())
     }
 
